@@ -6,7 +6,7 @@
     X(size_t, g_body_n) X(const unsigned char *, g_body_ptr) X(size_t, g_body_len) X(int, g_body_rc) \
     X(size_t, g_txstate_n) X(int, g_txstate_which) X(int, g_txstate_rc) \
     X(size_t, g_state_calls) X(size_t, g_hook_n) X(int, g_in_gap) \
-    X(size_t, g_clear_n) X(size_t, g_consol_n) X(size_t, g_create_n) X(size_t, g_consol_len) X(int64_t, g_pcl_value) \
+    X(size_t, g_clear_n) X(size_t, g_consol_n) X(size_t, g_create_n) X(size_t, g_consol_len) X(int64_t, g_pcl_value) X(size_t, g_hdrproc_n) X(size_t, g_hdr_in_len) \
     X(const unsigned char *, g_hook_ptr) X(size_t, g_hook_len) X(const void *, g_hook_tx) X(int, g_hook_rc) X(int, g_hook_last)
 /* largest stream offset / message length for which the int64 counters provably do not wrap in one call */
 #define OFFMAX ((int64_t) 1 << 62)
@@ -38,6 +38,8 @@
 #define RS_STATE_FRAME(c) g_state_calls, __CPROVER_object_whole(c)
 #define RES_TX_INV(c) (((c)->out_state != htp_connp_RES_IDLE) ==> (c)->out_tx != NULL)
 #define REQ_TX_INV(c) (((c)->in_state != htp_connp_REQ_IDLE && (c)->in_state != htp_connp_REQ_IGNORE_DATA_AFTER_HTTP_0_9) ==> (c)->in_tx != NULL)
+/* a pending (possibly folded) header: NULL, or a live bstr whose length respects the folded cap plus one line */
+#define HDR_OK(h) ((h) == NULL || (__CPROVER_rw_ok((h), sizeof(bstr)) && (h)->len <= (size_t) HTP_MAX_HEADER_FOLDED + LINE_CAP))
 #ifndef LINE_CAP
 #define LINE_CAP 256
 #endif
